@@ -352,7 +352,10 @@ class Database(Mapping):
             function_value = outputs.get(function_name)
             if function_value is not None:
                 if isinstance(function_value, ndarray) and function_value.size == 1:
-                    function_value = function_value[0]
+                    if function_value.ndim == 0:
+                        function_value = function_value[()]
+                    else:
+                        function_value = function_value[0]
                 output_history.append(function_value)
 
                 if with_x_vect:
